@@ -229,7 +229,8 @@ pub fn build(code: u32, need_reply: bool, var: &str, v: u64, rng: &mut Rng) -> B
         }
         24 | 25 => {
             let mut off = 0x100 * rng.below(8) as u32;
-            let smax = if rng.below(3) == 0 { 0x1000 - off as u64 } else { 64 };
+            // the whole message (header + body + payload) must fit the 4096-byte limit of the protocol
+            let smax = if rng.below(3) == 0 { (0x1000 - off as u64).min(0x1000 - 12) } else { 64 };
             let mut size = 1 + rng.below(smax) as u32;
             if var == "fixed" {
                 size = 8;
